@@ -49,7 +49,18 @@ func init() {
 			if err := tvRunOpts(ctx, gen.Lookalikes(ctx.TierN()), tvOpts{Mode: "lookalike", Census: "errors"}); err != nil {
 				return err
 			}
-			return tvRunOpts(ctx, gen.Subset(ctx.TierN()), tvOpts{Mode: "lookalike", Census: "errors"})
+			if err := tvRunOpts(ctx, gen.Subset(ctx.TierN()), tvOpts{Mode: "lookalike", Census: "errors"}); err != nil {
+				return err
+			}
+			// random programs with one injected out-of-subset construct: the error paths of the
+			// translator in contexts the catalogue does not enumerate
+			seeds := 1 + 2*ctx.TierN()
+			for seed := 1; seed <= seeds; seed++ {
+				if err := tvRunOpts(ctx, gen.RandomLookalikes(int64(seed), 150+350*ctx.TierN(), 3), tvOpts{Mode: "lookalike", Census: "errors"}); err != nil {
+					return err
+				}
+			}
+			return nil
 		},
 		Level:     "model_checking",
 		Patterns:  []string{"."},
